@@ -110,6 +110,11 @@ Build(st, sl, rg) ==
     [] st.op = "Wrap"       -> WStack(IF st.s = <<>> THEN e ELSE W1("withPrefix", st.s, <<>>, e))
     [] st.op = "Wrapf"      -> WrapfV(e, st.parts, sl)
     [] st.op = "WithMessage" -> W1("withPrefix", st.s, <<>>, e)
+    \* the f-variants: the text is the formatted string (no stack, no secondary errors)
+    [] st.op = "WithMessagef" -> W1("withPrefix", PartsText(st.parts, sl), <<>>, e)
+    [] st.op = "WithHintf" -> W1("withHint", PartsText(st.parts, sl), <<>>, e)
+    [] st.op = "WithDetailf" -> W1("withDetail", PartsText(st.parts, sl), <<>>, e)
+    [] st.op = "UnimplementedErrorf" -> V("unimplementedError", PartsText(st.parts, sl), st.a, <<>>, <<>>)
     [] st.op = "WithStack"  -> WStack(e)
     [] st.op = "WithHint"   -> W1("withHint", st.s, <<>>, e)
     [] st.op = "WithDetail" -> W1("withDetail", st.s, <<>>, e)
@@ -199,9 +204,13 @@ SSafeOps   == {"New", "Wrap", "WithMessage", "WithDomain", "HandledInDomain", "O
 \* words the step itself introduces
 \* (the ErrorKeyMarker of a type is safe by declaration: it travels in the type mark)
 KeyWrap(st) == st.op = "UWrap" /\ st.a[1] = <<"uKeyWrap">>
+\* (hints, details and the message of an unimplemented error are unsafe as a whole, also
+\* when they were formatted: constant parts and Safe() arguments included)
+AllUnsafeFmtOps == {"WithHintf", "WithDetailf", "UnimplementedErrorf"}
 StepU(st, sl) ==
   (IF st.op \in SUnsafeOps /\ ~KeyWrap(st) THEN WordsIn(st.s) ELSE {})
   \cup PartsU(st.parts)
+  \cup (IF st.op \in AllUnsafeFmtOps THEN PartsS(st.parts) ELSE {})
   \cup (IF st.op = "UMulti" /\ st.a # <<<<"REG">>>> THEN WordsInAll(st.a) ELSE {})
   \cup (IF st.op = "GoWrap" \/ (st.op = "ULeaf" /\ st.a[1] \notin {<<"uSafeDetLeaf">>, <<"uKeyLeaf">>})
         THEN WordsInAll(st.a) ELSE {})
@@ -212,8 +221,8 @@ StepU(st, sl) ==
         THEN WordsIn(Text(sl[st.src[2]])) ELSE {})
 StepS(st) ==
   (IF st.op \in SSafeOps \/ KeyWrap(st) THEN WordsIn(st.s) ELSE {})
-  \cup PartsS(st.parts)
-  \cup (IF st.op \in {"WithTelemetry", "WithIssueLink", "Unimplemented", "HandledInDomainWithMessage"}
+  \cup (IF st.op \in AllUnsafeFmtOps THEN {} ELSE PartsS(st.parts))
+  \cup (IF st.op \in {"WithTelemetry", "WithIssueLink", "Unimplemented", "UnimplementedErrorf", "HandledInDomainWithMessage"}
         THEN WordsInAll(st.a) ELSE {})
   \cup (IF st.op = "WithContextTags"
         THEN UNION {WordsIn(st.a[i]) : i \in Odd(st.a) \cup {j \in Even(st.a) : st.a[j] # <<>> /\ st.a[j][1] = "SAFEV"}}
@@ -275,6 +284,7 @@ TaintOf(st, sl, tn, res) ==
 ConstructorOps ==
   {"GoNew", "Sentinel", "CtxDeadline", "Errno", "New", "Newf", "PkgNew", "Unimplemented",
    "AssertionFailedf", "ULeaf", "Wrap", "Wrapf", "WithMessage", "WithStack", "WithHint",
+   "WithMessagef", "WithHintf", "WithDetailf", "UnimplementedErrorf",
    "WithDetail", "WithSafeDetails", "WithTelemetry", "WithDomain", "WithIssueLink",
    "WithContextTags", "WithAssertionFailure", "Mark", "WithSecondaryError", "CombineErrors",
    "Handled", "Opaque", "HandledWithMessage", "HandledInDomain", "HandledInDomainWithMessage",
